@@ -579,6 +579,7 @@ fn random(o: &mut Out, n: usize) {
                 "rand.levels",
             ));
             o.reqs.push(Req::new(format!("c20.deser {}", h_util::jtoks(&pl)), "rand.deser"));
+            push_deserred(o, &pl, "rand.deserred");
             continue;
         }
         let mut s = room(ver, actor, pl, ev);
@@ -669,6 +670,7 @@ fn fam_levels(o: &mut Out, tier: &str) {
                             "fam.levels",
                         ));
                         o.reqs.push(Req::new(format!("c20.deser {}", h_util::jtoks(&c)), "fam.deser"));
+                        push_deserred(o, &c, "fam.deserred");
                     }
                 }
             }
@@ -684,4 +686,15 @@ pub fn gen(rng: &mut Rng, n: usize, tier: &str) -> Vec<Req> {
     fam_levels(&mut o, tier);
     random(&mut o, n);
     o.reqs
+}
+
+/// `c20.deserred` requests for a content (only where the real redaction function can take it: the
+/// content converts to canonical JSON), one per redaction-rules family.
+fn push_deserred(o: &mut Out, c: &Value, cls: &str) {
+    if ruma_common::CanonicalJsonValue::try_from(c.clone()).is_err() {
+        return;
+    }
+    for ver in [1u32, 6, 10, 11] {
+        o.reqs.push(Req::new(format!("c20.deserred {ver} {}", h_util::jtoks(c)), cls));
+    }
 }
